@@ -333,6 +333,15 @@ def wfGroups (ext : Bool) (gs : List (List Cap)) : Bool :=
 def wfFixed (myAs hold bgpId : Nat) : Bool :=
   decide (myAs < 65536) && decide (hold < 65536) && decide (bgpId < 4294967296)
 
+/-- one parameter = one well-formed group that fits the length field of the format -/
+def wfGroup (ext : Bool) (g : List Cap) : Bool :=
+  g.all wfCap && decide (groupLen g < (if ext then 65536 else 256))
+
+/-- an OPEN that has a wire form in ExaBGP's layout -/
+def wfOpen (o : OpenMsg) : Bool :=
+  decide (o.version = 4) && wfFixed o.myAs o.hold o.bgpId
+    && wfGroups (useExtended o.caps) (o.caps.map (fun c => [c]))
+
 /-! ## The dict `Capabilities.unpack` builds -/
 
 structure CapSet where
